@@ -530,19 +530,43 @@ func runNative(overlay map[string][]byte, pkgs map[string]string, reports []*Har
 			skip = done
 		}
 	}
-	// race violations: confirm with the runtime race detector (one -race binary per package)
+	// race violations: confirm with the runtime race detector (one -race binary per package); when the
+	// free-running run does not show the race and the engine found it under a schedule with preemptions,
+	// a -race binary built from the instrumented copy replays the engine's order of synchronisation
+	// operations (instrument.go)
 	nr.raceSeen = map[string]bool{}
-	raceJobs := map[string]witnessJob{}
+	raceJobs := map[string][]witnessJob{}
 	for _, rep := range reports {
 		for _, v := range rep.Violations {
-			if v.Kind == "race" && v.Witness != nil {
-				if _, ok := raceJobs[rep.Name]; !ok {
-					raceJobs[rep.Name] = witnessJob{ID: rep.Name + "/race", W: v.Witness}
-				}
+			if v.Kind == "race" && v.Witness != nil && len(raceJobs[rep.Name]) < 3 {
+				raceJobs[rep.Name] = append(raceJobs[rep.Name], witnessJob{ID: rep.Name + "/race", W: v.Witness})
 			}
 		}
 	}
 	if len(raceJobs) > 0 {
+		runRace := func(bin, d string, job witnessJob, tries, repeat int) bool {
+			jb, _ := json.Marshal([]witnessJob{job})
+			rf := filepath.Join(tmp, "racejob.json")
+			os.WriteFile(rf, jb, 0644)
+			for try := 0; try < tries; try++ {
+				run := exec.Command(bin, "-test.run", "^TestVerifReplay$", "-test.count=1", "-test.timeout=10m")
+				run.Dir = filepath.Join(repoDir, d)
+				run.Env = append(env, "VERIF_REPLAY="+rf, "VERIF_OUT="+filepath.Join(tmp, "raceout.json"), "GORACE=halt_on_error=0", fmt.Sprintf("VERIF_REPEAT=%d", repeat))
+				o, _ := run.CombinedOutput()
+				if strings.Contains(string(o), "WARNING: DATA RACE") {
+					return true
+				}
+			}
+			return false
+		}
+		inPkg := func(d, name string) bool {
+			for _, h := range harnessByPkg[d] {
+				if h == name {
+					return true
+				}
+			}
+			return false
+		}
 		for d := range harnessByPkg {
 			bin := filepath.Join(tmp, "r_"+sanitize(d)+".test")
 			cmd := exec.Command("go", "test", "-race", "-c", "-vet=off", "-overlay", ovf, "-o", bin, "./"+d)
@@ -552,26 +576,51 @@ func runNative(overlay map[string][]byte, pkgs map[string]string, reports []*Har
 				nr.err = fmt.Sprintf("go test -race -c ./%s: %v\n%s", d, err, tail(string(out), 1500))
 				return nr
 			}
-			for name, job := range raceJobs {
-				found := false
-				for _, h := range harnessByPkg[d] {
-					if h == name {
-						found = true
-					}
-				}
-				if !found {
+			for name, jobs := range raceJobs {
+				if !inPkg(d, name) {
 					continue
 				}
-				jb, _ := json.Marshal([]witnessJob{job})
-				rf := filepath.Join(tmp, "racejob.json")
-				os.WriteFile(rf, jb, 0644)
-				for try := 0; try < 3 && !nr.raceSeen[name]; try++ {
-					run := exec.Command(bin, "-test.run", "^TestVerifReplay$", "-test.count=1", "-test.timeout=5m")
-					run.Dir = filepath.Join(repoDir, d)
-					run.Env = append(env, "VERIF_REPLAY="+rf, "VERIF_OUT="+filepath.Join(tmp, "raceout.json"), "GORACE=halt_on_error=0")
-					o, _ := run.CombinedOutput()
-					if strings.Contains(string(o), "WARNING: DATA RACE") {
+				if runRace(bin, d, jobs[0], 3, 1) {
+					nr.raceSeen[name] = true
+					continue
+				}
+				// a race that needs a particular interleaving: many free-running repetitions of the witnesses
+				for _, j := range jobs {
+					if runRace(bin, d, j, 2, 150) {
 						nr.raceSeen[name] = true
+						break
+					}
+				}
+			}
+			// not seen free-running: replay the engine's schedule on an instrumented -race binary
+			var pending []string
+			for name, jobs := range raceJobs {
+				if !inPkg(d, name) || nr.raceSeen[name] {
+					continue
+				}
+				for _, j := range jobs {
+					if len(j.W.Order) > 0 {
+						pending = append(pending, name)
+						break
+					}
+				}
+			}
+			if len(pending) > 0 {
+				ovf2 := instrumentedOverlay(tmp, repl, harnessByPkg)
+				bin2 := filepath.Join(tmp, "rs_"+sanitize(d)+".test")
+				cmd := exec.Command("go", "test", "-race", "-c", "-vet=off", "-overlay", ovf2, "-o", bin2, "./"+d)
+				cmd.Dir = repoDir
+				cmd.Env = env
+				if out, err := cmd.CombinedOutput(); err != nil {
+					nr.schedErr = fmt.Sprintf("instrumented -race build ./%s: %v\n%s", d, err, tail(string(out), 1500))
+				} else {
+					for _, name := range pending {
+						for _, j := range raceJobs[name] {
+							if len(j.W.Order) > 0 && runRace(bin2, d, j, 2, 1) {
+								nr.raceSeen[name] = true
+								break
+							}
+						}
 					}
 				}
 			}
@@ -603,34 +652,7 @@ func runNative(overlay map[string][]byte, pkgs map[string]string, reports []*Har
 		fmt.Fprintf(os.Stderr, "DEBUG sched confirmation jobs: %d\n", len(schedJobs))
 	}
 	if len(schedJobs) > 0 {
-		repl2 := map[string]string{}
-		for k, v := range repl {
-			repl2[k] = v
-		}
-		for d := range harnessByPkg {
-			ents, _ := os.ReadDir(filepath.Join(repoDir, d))
-			for _, e := range ents {
-				nm := e.Name()
-				if e.IsDir() || !strings.HasSuffix(nm, ".go") || strings.HasSuffix(nm, "_test.go") {
-					continue
-				}
-				full := filepath.Join(repoDir, d, nm)
-				src, err := os.ReadFile(full)
-				if err != nil {
-					continue
-				}
-				rel, _ := filepath.Rel(repoDir, full)
-				if out := instrumentSource(rel, src); out != nil {
-					n++
-					f := filepath.Join(tmp, fmt.Sprintf("ins%d.go", n))
-					os.WriteFile(f, out, 0644)
-					repl2[full] = f
-				}
-			}
-		}
-		ovb2, _ := json.Marshal(map[string]interface{}{"Replace": repl2})
-		ovf2 := filepath.Join(tmp, "overlay_sched.json")
-		os.WriteFile(ovf2, ovb2, 0644)
+		ovf2 := instrumentedOverlay(tmp, repl, harnessByPkg)
 		sjb, _ := json.Marshal(schedJobs)
 		sjf := filepath.Join(tmp, "schedjobs.json")
 		os.WriteFile(sjf, sjb, 0644)
@@ -700,6 +722,44 @@ func runNative(overlay map[string][]byte, pkgs map[string]string, reports []*Har
 		}
 	}
 	return nr
+}
+
+// instrumentedOverlay writes instrumented copies (verifSP before every synchronisation operation) of the
+// harness packages' source files and returns an overlay file that adds them to repl.
+func instrumentedOverlay(tmp string, repl map[string]string, harnessByPkg map[string][]string) string {
+	ovf2 := filepath.Join(tmp, "overlay_sched.json")
+	if _, err := os.Stat(ovf2); err == nil {
+		return ovf2
+	}
+	repl2 := map[string]string{}
+	for k, v := range repl {
+		repl2[k] = v
+	}
+	n := 0
+	for d := range harnessByPkg {
+		ents, _ := os.ReadDir(filepath.Join(repoDir, d))
+		for _, e := range ents {
+			nm := e.Name()
+			if e.IsDir() || !strings.HasSuffix(nm, ".go") || strings.HasSuffix(nm, "_test.go") {
+				continue
+			}
+			full := filepath.Join(repoDir, d, nm)
+			src, err := os.ReadFile(full)
+			if err != nil {
+				continue
+			}
+			rel, _ := filepath.Rel(repoDir, full)
+			if out := instrumentSource(rel, src); out != nil {
+				n++
+				f := filepath.Join(tmp, fmt.Sprintf("ins%d.go", n))
+				os.WriteFile(f, out, 0644)
+				repl2[full] = f
+			}
+		}
+	}
+	ovb2, _ := json.Marshal(map[string]interface{}{"Replace": repl2})
+	os.WriteFile(ovf2, ovb2, 0644)
+	return ovf2
 }
 
 func tail(s string, n int) string {
